@@ -203,7 +203,7 @@ def via_history(cfg, rng, variant=None, which=None):
     flip = ['sG', 'spsi'] if only == 'signs' else ([] if only is not None else [k for k in ('sG', 'spsi') if rng.random() < 0.3])
     for k in flip:
         c0[k] = -cfg.get(k, 1)
-    if rng.random() < 0.35:
+    if rng.random() < 0.35 and only is None:
         # start from a stellarator-SYMMETRIC object; the symmetry is broken (if the target is asymmetric) only by the later set_dofs
         for k in ('rs', 'zc'):
             if k in c0:
@@ -229,7 +229,7 @@ def via_history(cfg, rng, variant=None, which=None):
                 x = np.array(list(cfg['rc']) + list(cfg['zs']) + list(cfg.get('rs', z)) + list(cfg.get('zc', z))
                              + [cfg['etabar'], cfg.get('sigma0', 0.0), cfg.get('B2s', 0.0), cfg.get('B2c', 0.0), cfg.get('p2', 0.0), cfg.get('I2', 0.0), cfg.get('B0', 1.0)], dtype=float)
                 h.records.clear()
-                if rng.random() < 0.7:
+                if rng.random() < 0.7 or only is not None:      # (single-change histories always go through set_dofs: they are aimed at its invalidation logic)
                     q.set_dofs(x)
                 else:
                     # the other documented way to change an object: assign the inputs, then calculate()
@@ -406,7 +406,9 @@ def corpus_objects(orders=None, histories=True):
             out.append((dict(cfg), q))
     if histories:
         hr = np.random.default_rng(12345)
-        for cfg, variant, wh in ((CORPUS[3], 'B', ('rs', 'zc')), (CORPUS[0], 'A', None), (CORPUS[2], 'C', 'B0'), (CORPUS[3], 'C', 'I2'), (CORPUS[2], 'C', 'signs'), (CORPUS[0], 'C', 'I2')):
+        resolved = [c for c in CORPUS if c.get('nphi') == 61 and c.get('order') == 'r3'][:1]       # spectral tail 1e-12: continuum identities are sharp on it
+        for cfg, variant, wh in [(CORPUS[3], 'B', ('rs', 'zc')), (CORPUS[0], 'A', None), (CORPUS[2], 'C', 'B0'), (CORPUS[3], 'C', 'I2'), (CORPUS[2], 'C', 'signs'), (CORPUS[0], 'C', 'I2')] \
+                + [(c, 'C', w) for c in resolved for w in ('I2', 'B0')]:
             if orders and cfg.get('order', 'r1') not in orders:
                 continue
             try:
